@@ -212,7 +212,10 @@ namespace
             return {};
         }
         auto velocity = right.data<d_array>();
-        velocity->check_type(runtime, t_scalar(), 3);
+        if (!velocity->check_type(runtime, t_scalar(), 3))
+        {
+            return {};
+        }
         auto inner = veh->value();
         inner->velocity({
             velocity->at(0).data<d_scalar, float>(),
@@ -680,7 +683,7 @@ namespace
         else
         {
             auto grp = obj->value()->group();
-            if (grp->is_null())
+            if (!grp || grp->is_null())
             {
                 runtime.__logmsg(err::ExpectedNonNullValueWeak(runtime.context_active().current_frame().diag_info_from_position()));
                 return std::make_shared<d_side>(d_side::side::Empty);
@@ -820,15 +823,15 @@ namespace
             runtime.__logmsg(err::ReturningEmptyArray(runtime.context_active().current_frame().diag_info_from_position()));
             return value(arr);
         }
-        if (!obj->driver()->is_null())
+        if (obj->driver() && !obj->driver()->is_null())
         {
             arr->push_back(value(obj->driver()));
         }
-        if (!obj->gunner()->is_null())
+        if (obj->gunner() && !obj->gunner()->is_null())
         {
             arr->push_back(value(obj->gunner()));
         }
-        if (!obj->commander()->is_null())
+        if (obj->commander() && !obj->commander()->is_null())
         {
             arr->push_back(value(obj->commander()));
         }
@@ -853,7 +856,7 @@ namespace
             return right;
         }
         auto parent = obj->parent_object();
-        if (parent->is_null() || !parent->value()->is_vehicle())
+        if (!parent || parent->is_null() || !parent->value()->is_vehicle())
         {
             return right;
         }
@@ -1087,7 +1090,7 @@ namespace
         else
         {
             auto grp = obj->value()->group();
-            if (grp->is_null())
+            if (!grp || grp->is_null())
             {
                 runtime.__logmsg(err::ExpectedNonNullValue(runtime.context_active().current_frame().diag_info_from_position()));
                 runtime.__logmsg(err::ReturningEmptyString(runtime.context_active().current_frame().diag_info_from_position()));
